@@ -354,6 +354,11 @@ M("C18", "cli-allow-changes-default-set-behind-table", "iodata/__main__.py", r" 
 M("C18", "cli-edits-loaded-object", "iodata/__main__.py", r"        dump_one\(load_one\(infn, fmt=infmt\), outfn, allow_changes=allow_changes, fmt=outfmt\)", '        data = load_one(infn, fmt=infmt)\n        data.title = "converted"\n        dump_one(data, outfn, allow_changes=allow_changes, fmt=outfmt)', "C18-R8")
 T("C18", "cli-loaded-object-in-a-local", "iodata/__main__.py", r"        dump_one\(load_one\(infn, fmt=infmt\), outfn, allow_changes=allow_changes, fmt=outfmt\)", "        data = load_one(infn, fmt=infmt)\n        dump_one(data, outfn, allow_changes=allow_changes, fmt=outfmt)")
 
+M("C08", "write-funnel-returns-early-on-broken-pipe", "iodata/api.py", r'(            format_module\.dump_one\(f, data, \*\*kwargs\)\n        except DumpError:\n            raise\n        except Exception as exc:\n)', "\\1            if isinstance(exc, BrokenPipeError):\n                return data\n", "C08-R2")
+M("C08", "output-opened-in-append-mode", "iodata/api.py", r'(            data = format_module\.prepare_dump(?:.|\n)*?)    with open\(filename, "w"\) as f:', '\\1    with open(filename, "a") as f:', "C08-R1")
+
+M("C08", "writer-raises-prepare-error", F + "xyz.py", r"(    if atom_columns is None:\n        atom_columns = DEFAULT_ATOM_COLUMNS\n    # Write the header)", "    if atom_columns is not None and len(atom_columns) == 0:\n        raise PrepareDumpError(\"atom_columns is empty\", f)\n\\1", "C08-R9", also=[(r"from \.\.utils import ", "from ..utils import PrepareDumpError, ")])
+
 # ----------------------------------------------------------------------------- additions (fourth round, batch 6)
 M("C07", "extxyz-title-parsed-after-putback", F + "extxyz.py", r"    atom_columns, title_data = _parse_title\(title_line, lit\)\n    lit\.back\(title_line\)\n    lit\.back\(atom_line\)\n", "    lit.back(title_line)\n    lit.back(atom_line)\n    atom_columns, title_data = _parse_title(title_line, lit)\n", "C07-R8")
 M("C07", "mol2-atom-loop-skips-blank-lines", F + "mol2.py", r"(    for i in range\(natoms\):\n        words = next\(lit\)\.split\(\)\n)", "\\1        if not words:\n            continue\n", "C07-R9")
